@@ -117,7 +117,11 @@ class C20(core.Property):
     rule = ("seven families (bloom, cms, hll, topk, reservoir, merkle, tdigest), round-robin; streams of 0–200 weighted adds "
             "(skewed / uniform / colliding-by-construction / single item / empty; counts 0, 1, large, occasionally negative), "
             "small dimensions (Bloom 1–128 bits, CMS 1–16×1–5, HLL p=4–16, TopK k=1–8, reservoir 1–8), every split point reachable; "
-            "a case is non-trivial when it has ≥2 accepted adds (sketches) or ≥1 differing key (Merkle); distinct = distinct case content")
+            "family seq (2 of every 9 cases): a *program* over 2–4 sketches of one kind (Count-Min, Bloom, HyperLogLog, TopK, reservoir, t-digest in turn; "
+            "12 % with one differently configured register) — ≤40 add / merge / clear operations shaped as window aggregation (merge a window into an aggregate that "
+            "may still be empty, then clear or keep filling the window), merge chains a→b→c with the early links changed afterwards, fan-in, or random (self-merge "
+            "for the three mergeable kinds); every sketch is observed after every operation; "
+            "a case is non-trivial when it has ≥2 accepted adds (sketches) or ≥1 differing key (Merkle) or ≥1 add and ≥1 merge (seq); distinct = distinct case content")
     trusted_base = [
         "hv/props/c20.py adapters (drive the real sketch objects, canonical transcript)",
         "private attributes read for state equality: BloomFilter._bits, CountMinSketch._counters, HyperLogLog._registers "
@@ -126,12 +130,21 @@ class C20(core.Property):
         "SHA-256 / builtin hash() behave as fixed functions within one process (PYTHONHASHSEED=0)",
         "Merkle keys are mapped to their rank in the sorted key pool (Python str order = Nat order on ranks)",
         "t-digest doubles cross as order-preserving integer keys (okey); no float arithmetic on the Lean side",
+        "seq family: the reference sketch of a register (`w<i>` lines: a fresh sketch of the same configuration fed with the register's logical stream by add() only) "
+        "is built by the adapter; the logical stream is recomputed on the Lean side (`logical`) for the one-sided bounds, the TopK / reservoir / t-digest clauses",
     ]
     assumptions = [
         "reservoir clause read as: size = min(k, n) and every sampled element occurs in the stream (set reading; merge samples with replacement)",
         "TopK.merge is not part of the property text and is not modelled (its item_count can exceed N: k=2, {a:1,b:2}.merge({c:5,a:1}) reports 10 for 9)",
         "t-digest: no Lean model of the float centroid arithmetic; its two clauses are judged on the implementation's own outputs only",
         "HLL cardinality() (float estimator) is not compared; the merge law is on registers",
+        "seq family: 'a merge result must not change when its inputs change afterwards' is judged as a frame clause on public observables — after every operation every "
+        "sketch other than the operation's target (add/clear: the receiver; merge: the receiver, not the argument) must report exactly what it reported before "
+        "(item_count, state/answers to all probes, top(), sample(), t-digest quantile grid) — plus, for Bloom / Count-Min / HLL, equality with the sketch of the logical stream "
+        "(streams concatenated as they were at merge time) and the one-sided bounds against that stream at every step",
+        "seq family, TopK: TopK.merge is modelled (transcripts compared) but the bounds are judged only for registers whose history since the last clear() has no merge "
+        "(the property text gives TopK no merge law); reservoir: size = min(k, n) and sample ⊆ logical stream also after merges; t-digest: monotone quantiles within [min, max] of the logical stream",
+        "seq family, t-digest: observing quantile() after every operation flushes the buffer, so programs exercise merge/clear on flushed digests (the tdigest family covers unflushed merges)",
     ]
     hypotheses = [
         "merkle_*: HashInjOn — the node hash is injective on the subtrees of the two trees compared (SHA-256 collision resistance)",
@@ -139,14 +152,135 @@ class C20(core.Property):
         "cms_never_under: depth > 0 (constructor guard)",
         "topk_*: k > 0 (constructor guard)",
         "reservoir_merge_*: every scripted random() value is in [0,1) (v % 64 / 64)",
+        "*_program_registers_are_sketches: every merge in the program is between registers of equal configuration and hash family (okFor …Same; merge() raises ValueError otherwise "
+        "and the driver turns a rejected operation into `skip`); cms lower bound: depth > 0",
     ]
 
     # ------------------------------------------------------------------ generation
-    FAMILIES = ["bloom", "cms", "hll", "topk", "reservoir", "merkle", "tdigest"]
+    FAMILIES = ["bloom", "cms", "hll", "topk", "reservoir", "merkle", "tdigest", "seq", "seq"]
+    SEQ_KINDS = ["cms", "bloom", "hll", "topk", "reservoir", "tdigest"]
 
     def generate(self, rng: random.Random, i: int, tier: str) -> dict:
         fam = self.FAMILIES[i % len(self.FAMILIES)]
+        if fam == "seq":
+            k = (i // len(self.FAMILIES)) * 2 + (i % len(self.FAMILIES) - self.FAMILIES.index("seq"))
+            return self.gen_seq(rng, tier, self.SEQ_KINDS[k % len(self.SEQ_KINDS)])
         return getattr(self, "gen_" + fam)(rng, tier)
+
+    # -- sketch programs: several sketches of one kind, add / merge / clear interleaved -------------
+    def gen_seq(self, rng, tier, kind):
+        nreg = rng.choice([2, 2, 3, 3, 4])
+        n_items = rng.choice([1, 2, 4, 8, 16])
+        if kind == "bloom":
+            cfg = [rng.choice([1, 2, 3, 8, 16, 63, 64, 65]), rng.choice([1, 1, 2, 3]), rng.choice([0, 1, 42])]
+        elif kind == "cms":
+            cfg = [rng.choice([1, 2, 3, 4, 8]), rng.choice([1, 1, 2, 3]), rng.choice([0, 1, 42])]
+        elif kind == "hll":
+            cfg = [rng.choice([4, 4, 5, 6]), rng.choice([0, 1, 42])]
+        elif kind == "topk":
+            cfg = [rng.choice([1, 2, 2, 3, 4])]
+        elif kind == "reservoir":
+            cfg = [rng.choice([1, 2, 3, 4])]
+        else:
+            cfg = rng.choice([[2, 5], [1, 1], [2, 1], [5, 1], [20, 1], [100, 1]])
+        cfgs = [cfg]
+        regs = [0] * nreg
+        if rng.random() < 0.12:
+            # one register is configured differently: merging it with the others must be refused
+            # (t-digests of different compression may be merged)
+            other = list(cfg)
+            other[rng.randrange(len(cfg))] += 1
+            cfgs.append(other)
+            regs[rng.randrange(nreg)] = 1
+
+        def item():
+            if kind == "tdigest":
+                return rng.choice([rng.randrange(-64, 512) / 8, rng.randrange(0, 300) / 10,
+                                   rng.choice([0.1, 0.2, 0.3, 0.7, 2.8, -3.5, 1e9, 0.0])])
+            r = rng.random()
+            if r < 0.5:
+                return min(int(rng.paretovariate(1.1)) - 1, n_items - 1)
+            return rng.randrange(n_items)
+
+        def count():
+            r = rng.random()
+            if r < 0.8:
+                return 1
+            if r < 0.93:
+                return rng.choice([2, 3, 5, 40 if kind != "reservoir" else 4])
+            if r < 0.98:
+                return 0
+            return -rng.choice([1, 3])
+
+        ops = []
+
+        def adds(r, n):
+            for _ in range(n):
+                ops.append(["add", r, item(), count()])
+
+        shape = rng.choice(["aggregate", "aggregate", "chain", "random", "random", "fanin"])
+        few = lambda: rng.choice([0, 1, 1, 2, 3, 5])
+        if shape == "aggregate":
+            # register 0 aggregates windows 1..; a window keeps being used / is cleared and refilled afterwards
+            if rng.random() < 0.3:
+                adds(0, few())
+            for _ in range(rng.choice([1, 2, 3, 4])):
+                w = rng.randrange(1, nreg)
+                adds(w, few())
+                ops.append(["merge", 0, w])
+                after = rng.random()
+                if after < 0.45:
+                    ops.append(["clear", w])
+                elif after < 0.8:
+                    adds(w, rng.choice([1, 2, 3]))
+                if rng.random() < 0.3:
+                    adds(0, rng.choice([1, 2]))
+        elif shape == "chain":
+            # a -> b -> c, then the early links change
+            order = list(range(nreg))
+            rng.shuffle(order)
+            for r in order:
+                adds(r, few())
+            for a, b in zip(order, order[1:]):
+                ops.append(["merge", b, a])
+                if rng.random() < 0.5:
+                    adds(a, rng.choice([1, 2]))
+            for r in order[:-1]:
+                ops.append(rng.choice([["clear", r], ["add", r, item(), 1], ["add", r, item(), count()]]))
+        elif shape == "fanin":
+            for r in range(1, nreg):
+                adds(r, few())
+            for r in range(1, nreg):
+                ops.append(["merge", 0, r])
+            for r in range(1, nreg):
+                if rng.random() < 0.7:
+                    ops.append(["clear", r] if rng.random() < 0.5 else ["add", r, item(), 1])
+            adds(0, few())
+        else:
+            for _ in range(rng.choice([3, 6, 10, 16, 24])):
+                r = rng.random()
+                if r < 0.6:
+                    adds(rng.randrange(nreg), 1)
+                elif r < 0.88:
+                    t, s_ = rng.randrange(nreg), rng.randrange(nreg)
+                    if t == s_ and (kind not in MERGEABLE or rng.random() < 0.7):
+                        s_ = (t + 1) % nreg
+                    ops.append(["merge", t, s_])
+                else:
+                    ops.append(["clear", rng.randrange(nreg)])
+        ops = ops[:40]
+        case = {"family": "seq", "kind": kind, "item_kind": rng.choice(KINDS), "cfgs": cfgs, "regs": regs, "ops": ops}
+        if kind == "tdigest":
+            case["qn"] = rng.choice([4, 16, 64])
+        else:
+            used = sorted({op[2] for op in ops if op[0] == "add"})
+            case["probes"] = used + [n_items + 50 + t for t in range(rng.choice([0, 1, 2]))]
+        if kind == "reservoir":
+            budget = sum(max(op[3], 0) for op in ops if op[0] == "add") + 2 * 5 * sum(1 for op in ops if op[0] == "merge") + 4
+            k = cfg[0]
+            case["scripts"] = [[rng.choice([0, k - 1, k, k + 1, rng.randrange(1 << 16), rng.randrange(budget + 1), 63, 64])
+                                for _ in range(budget)] for _ in range(nreg)]
+        return case
 
     @staticmethod
     def gen_stream(rng, n_items, tier, allow_neg=True):
@@ -348,6 +482,108 @@ class C20(core.Property):
         fam = case["family"]
         out = self.impl_mergeable(case) if fam in MERGEABLE else getattr(self, "impl_" + fam)(case)
         return [" ".join(l.split()) for l in out]
+
+    def compare_view(self, case, impl_out):
+        """`#…` lines are judge-only observations (t-digest quantiles of the seq family)"""
+        return [l for l in impl_out if not l.startswith("#")]
+
+    # -- seq family ---------------------------------------------------------------------------
+    @staticmethod
+    def _seq_make(kind, cfg):
+        from happysimulator.sketching.reservoir import ReservoirSampler
+        from happysimulator.sketching.tdigest import TDigest
+        from happysimulator.sketching.topk import TopK
+
+        if kind in MERGEABLE:
+            return _mk(kind, cfg)
+        if kind == "topk":
+            return TopK(k=cfg[0])
+        if kind == "reservoir":
+            return ReservoirSampler(size=cfg[0])
+        return TDigest(compression=cfg[0] / cfg[1])
+
+    def impl_seq(self, case):
+        kind, ik = case["kind"], case["item_kind"]
+        cfgs, regmap, probes = case["cfgs"], case["regs"], case.get("probes", [])
+        n = len(regmap)
+        sk = [self._seq_make(kind, cfgs[regmap[r]]) for r in range(n)]
+        if kind == "reservoir":
+            for r in range(n):
+                sk[r]._rng = Scripted(case["scripts"][r])
+        logical = [[] for _ in range(n)]        # per register: the adds that make up its logical stream
+        refs = [None] * n                       # reference sketch per register, rebuilt when its stream changes
+        back = {}
+        qs = [i / case["qn"] for i in range(case["qn"] + 1)] if kind == "tdigest" else []
+
+        def it(x):
+            if kind == "tdigest":
+                return x
+            v = item_of(ik, x)
+            back[v] = x
+            return v
+
+        def show(r, s):
+            if kind in MERGEABLE:
+                q = j(_query(kind, s, item_of(ik, p)) for p in probes) if kind != "hll" else ""
+                return f"n {s.item_count} st {_state(kind, s)} | q {q}"
+            if kind == "topk":
+                top = j(f"{back[e.item]}:{e.count}:{e.error}" for e in s.top())
+                pq = []
+                for p in probes:
+                    e = s.estimate_with_error(item_of(ik, p))
+                    pq.append(f"{p}:{1 if item_of(ik, p) in s else 0}:{e.count}:{e.error}")
+                return f"n {s.item_count} thr {s.guaranteed_threshold()} maxerr {s.max_error()} top {top} | q {j(pq)}"
+            if kind == "reservoir":
+                return f"n {s.item_count} sample {j(back[y] for y in s.sample())}"
+            mn = "none" if s.min is None else okey(s.min)
+            mx = "none" if s.max is None else okey(s.max)
+            return f"n {s.item_count} min {mn} max {mx}"
+
+        out = []
+
+        def snap():
+            for r in range(n):
+                out.append(f"r{r} {show(r, sk[r])}")
+            if kind in MERGEABLE:
+                for r in range(n):
+                    if refs[r] is None:
+                        w = self._seq_make(kind, cfgs[regmap[r]])
+                        for x, c in logical[r]:
+                            w.add(item_of(ik, x), c)
+                        refs[r] = w
+                    out.append(f"w{r} {show(r, refs[r])}")
+            if kind == "tdigest":
+                for r in range(n):
+                    if sk[r].item_count:
+                        out.append(f"#q{r} {j(okey(sk[r].quantile(q)) for q in qs)}")
+
+        out.append("s init")
+        snap()
+        for k, op in enumerate(case["ops"]):
+            out.append(f"s {k + 1} " + j(self._seq_op_tokens(kind, op)))
+            try:
+                if op[0] == "add":
+                    sk[op[1]].add(it(op[2]), op[3])
+                    logical[op[1]] = logical[op[1]] + [(op[2], op[3])]
+                    refs[op[1]] = None
+                elif op[0] == "merge":
+                    sk[op[1]].merge(sk[op[2]])
+                    logical[op[1]] = logical[op[1]] + logical[op[2]]
+                    refs[op[1]] = None
+                else:
+                    sk[op[1]].clear()
+                    logical[op[1]] = []
+                    refs[op[1]] = None
+            except ValueError:
+                out.append("err ValueError")
+            snap()
+        return out
+
+    @staticmethod
+    def _seq_op_tokens(kind, op):
+        if op[0] == "add" and kind == "tdigest":
+            return ["add", op[1], okey(op[2]), op[3]]
+        return op
 
     def model_postprocess(self, case, out):
         return [" ".join(l.split()) for l in out]
@@ -561,10 +797,44 @@ class C20(core.Property):
                    [j(op) for op in case["ops"]]
         if fam == "tdigest":
             return [f"cfg {case['comp'][0]} {case['comp'][1]}"] + [f"add {okey(v)} {c}" for v, c in case["vals"]] + [f"split {case['split']}"]
+        if fam == "seq":
+            return [f"kind {case['kind']}"] + [f"cfg {i} {j(c)}" for i, c in enumerate(case["cfgs"])] + \
+                   [f"reg {j(case['regs'])}", f"probe {j(case.get('probes', []))}"]
         raise core.InfraError(f"unknown family {fam}")
+
+    def seq_model_body(self, case):
+        kind = case["kind"]
+        body = self.scenario_lines(case)
+        if kind in MERGEABLE:
+            ids = sorted({op[2] for op in case["ops"] if op[0] == "add"} | set(case["probes"]))
+            for ci, cfg in enumerate(case["cfgs"]):
+                sk = _mk(kind, cfg)
+                body += [f"h {ci} {x} {j(_hash_row(kind, sk, cfg, item_of(case['item_kind'], x)))}" for x in ids]
+        if kind == "reservoir":
+            body += [f"script {r} {j(v)}" for r, v in enumerate(case["scripts"])]
+        return body + ["op " + j(self._seq_op_tokens(kind, op)) for op in case["ops"]]
+
+    def seq_judge_body(self, case, impl_out):
+        """scenario + after `init` / every `op` the implementation's snapshot of every register"""
+        body = self.scenario_lines(case)
+        ops = ["init"] + ["op " + j(self._seq_op_tokens(case["kind"], op)) for op in case["ops"]]
+        k = -1
+        for line in impl_out:
+            if line.startswith("s "):
+                k += 1
+                if k >= len(ops):
+                    return None
+                body.append(ops[k])
+            elif line.startswith(("r", "w")):
+                body.append("obs " + line)
+            elif line.startswith("#q"):
+                body.append("obs " + line[1:])
+        return body if k == len(ops) - 1 else None
 
     def model_block(self, case, variant):
         fam = case["family"]
+        if fam == "seq":
+            return ("seq", self.seq_model_body(case))
         body = self.scenario_lines(case)
         if fam in MERGEABLE:
             ids = sorted({x for x, _ in case["stream"]} | set(case["probes"]))
@@ -616,6 +886,9 @@ class C20(core.Property):
         if impl_out and impl_out[0].startswith(("IMPL-", "err ")):
             return None
         fam = case["family"]
+        if fam == "seq":
+            body = self.seq_judge_body(case, impl_out)
+            return None if body is None else ("judge-seq", body)
         body = self.scenario_lines(case)
         if fam == "tdigest":
             return ("judge-tdigest", body + self.td_quantiles(case))
@@ -656,13 +929,16 @@ class C20(core.Property):
         elif fam == "tdigest":
             if sum(1 for _, c in case["vals"] if c > 0) < 2:
                 return None
+        elif fam == "seq":
+            if sum(1 for op in case["ops"] if op[0] == "add" and op[3] > 0) < 1 or not any(op[0] == "merge" for op in case["ops"]):
+                return None
         elif sum(1 for _, c in case["stream"] if c > 0) < 2:
             return None
         return json.dumps(case, sort_keys=True)
 
     @staticmethod
     def _seq_key(case):
-        return {"topk": "ops", "merkle": "ops", "tdigest": "vals"}.get(case["family"], "stream")
+        return {"topk": "ops", "merkle": "ops", "tdigest": "vals", "seq": "ops"}.get(case["family"], "stream")
 
     def shrink(self, case):
         key = self._seq_key(case)
@@ -718,6 +994,11 @@ THEOREMS = [
     "HappyModel.C20.reservoir_merge",
     "HappyModel.C20.merkle_diff_empty_iff_equal",
     "HappyModel.C20.merkle_diff_covers",
+    "HappyModel.C20.seqRun_refines",
+    "HappyModel.C20.cms_program_registers_are_sketches",
+    "HappyModel.C20.bloom_program_registers_are_sketches",
+    "HappyModel.C20.hll_program_registers_are_sketches",
+    "HappyModel.C20.sketch_program_frame",
 ]
 C20.theorems = THEOREMS
 C20.partial_theorems = {
